@@ -55,8 +55,17 @@ def build(need_cli=False, quiet=True):
     fcntl.flock(lock, fcntl.LOCK_EX)
     try:
         t0 = time.time()
-        cmd = CARGO + ["build", "--release", "--offline", "--manifest-path",
-                       os.path.join(VERIF, "harness", "Cargo.toml")]
+        harness = os.path.join(VERIF, "harness")
+        if REPO != "/repo":
+            # checks normally rebuild from /repo; GV_REPO=<dir> (background sweeps on a snapshot) gets a derived harness
+            harness = os.path.join(TARGET, "harness-alt")
+            shutil.rmtree(harness, ignore_errors=True)
+            shutil.copytree(os.path.join(VERIF, "harness"), harness, ignore=shutil.ignore_patterns("target"))
+            for rel in ("Cargo.toml", os.path.join("src", "main.rs")):
+                fp = os.path.join(harness, rel)
+                txt = open(fp).read().replace('"/repo/', '"%s/' % REPO)
+                open(fp, "w").write(txt)
+        cmd = CARGO + ["build", "--release", "--offline", "--manifest-path", os.path.join(harness, "Cargo.toml")]
         env = _cargo_env()
         env["CARGO_TARGET_DIR"] = os.path.join(TARGET, "rel")
         p = subprocess.run(cmd, env=env, stdout=subprocess.PIPE, stderr=subprocess.STDOUT, text=True)
